@@ -50,6 +50,11 @@ func c09Drive(args []string) int {
 		}
 		emitVariant("1-byte", &chunkReader{data: in, sizes: []int{1}, failAt: -1}, -1)
 		emitVariant("1-byte+eof-with-data", &chunkReader{data: in, sizes: []int{1}, eofWith: true, failAt: -1}, -1)
+		if len(in) <= 6000 {
+			// an empty read after every byte: as many empty reads as there are bytes, never two in a row
+			emitVariant("1-byte, an empty read after each", &chunkReader{data: in, sizes: []int{1, 0}, failAt: -1}, -1)
+			emitVariant("3 bytes, two empty reads after each", &chunkReader{data: in, sizes: []int{3, 0, 0}, failAt: -1}, -1)
+		}
 		emitVariant("whole+eof-with-data", &chunkReader{data: in, eofWith: true, failAt: -1}, -1)
 		// a producer that writes line by line, the last line arriving together with io.EOF
 		var lineSizes []int
